@@ -220,7 +220,10 @@ func main() {
 				}
 				srv := l.Server("")
 				if srv == nil {
-					rep.Broken("expected one server, got %d for %q", len(l.Servers), cf)
+					// every site of the set is declared on port 8080: they all belong on one listener
+					rep.Violation("C01/sites-of-one-port-on-several-listeners", fmt.Sprintf("the sites of one port were distributed over %d servers", len(l.Servers)), vcase{Casketfile: cf})
+					l.Close()
+					continue
 				}
 				cur := map[string]string{}
 				for _, rh := range reqHosts {
